@@ -268,7 +268,7 @@ func (c *Ctx) render(pc []string, goal string, cover bool, cands []string) strin
 		return b.String()
 	}
 	n := 0
-	in := &instantiator{cands: append([]string(nil), cands...), limit: 400, seen: map[string]bool{}, fresh: &n}
+	in := &instantiator{cands: append([]string(nil), cands...), limit: 900, seen: map[string]bool{}, fresh: &n}
 	g := goal
 	if strings.Contains(goal, "(forall ") {
 		if t, err := parseSx(goal); err == nil {
@@ -366,5 +366,18 @@ func (sr *SortReg) render() string {
 		}
 	}
 	b.WriteString("(declare-datatypes (" + strings.Join(names, " ") + ") (" + strings.Join(bodies, "\n ") + "))\n")
+	// valref: the reference held by an interface value (0 when it holds no pointer)
+	body := "0"
+	for _, k := range keys {
+		c := sr.valCtors[k]
+		if c.Sort != "Int" || c.GoT == nil {
+			continue
+		}
+		switch c.GoT.Underlying().(type) {
+		case *types.Pointer, *types.Map, *types.Chan, *types.Signature:
+			body = "(ite ((_ is " + c.Name + ") v) (" + c.Sel + " v) " + body + ")"
+		}
+	}
+	b.WriteString("(define-fun valref ((v Val)) Int " + body + ")\n")
 	return b.String()
 }
